@@ -875,3 +875,11 @@ Proof.
 Qed.
 
 End MaxDist.
+
+(* ============================================================================================ *)
+(* data for the non-vacuity examples of Props.v: a norm oracle returning 5 and three collinear-free
+   2-d geometries with x2 - x1 = (3, 4) *)
+Definition ex_nrm5 : nat -> (nat -> Qc) -> Qc := fun _ _ => qc 5 1.
+Definition ex_x0 : nat -> Qc := vec_of_list [qc 0 1; qc 0 1].
+Definition ex_x1 : nat -> Qc := vec_of_list [qc 1 1; qc 1 1].
+Definition ex_x2 : nat -> Qc := vec_of_list [qc 4 1; qc 5 1].
